@@ -263,8 +263,14 @@ def main(argv=None):
                 violations.append((path, True, rec['obligation']))
 
     if args.update_ledger:
-        ledger[prop] = new_led
-        json.dump(ledger, open(ledger_path, 'w'), indent=1, sort_keys=True)
+        import fcntl
+        with open(ledger_path + '.lock', 'w') as lk:
+            fcntl.flock(lk, fcntl.LOCK_EX)              # several checks may update their own entry at the same time
+            cur = json.load(open(ledger_path)) if os.path.exists(ledger_path) else {}
+            cur[prop] = new_led
+            tmp = ledger_path + '.tmp.%d' % os.getpid()
+            json.dump(cur, open(tmp, 'w'), indent=1, sort_keys=True)
+            os.replace(tmp, ledger_path)
 
     # vacuity of the whole check
     if n_obl == 0 and not undecided:
